@@ -304,8 +304,15 @@ impl H {
                     Some(("result_differs".into(), format!("{}: returned {}, the reference map says {}", what, g, w)))
                 }
             }
-            (Outcome::Panic(k, _), Err(w)) if k == w => None,
-            (Outcome::Panic(k, m), Err(w)) => Some(("wrong_panic".into(), format!("{}: panicked with {:?} ({}), expected a {:?} panic", what, k, m, w))),
+            // the statement asks for *a* panic; its wording (hence its classification) is not
+            // part of the property, except that an injected panic must stay the injected one
+            (Outcome::Panic(k, m), Err(w)) => {
+                if w == PanicKind::Injected && k != PanicKind::Injected {
+                    Some(("wrong_panic".into(), format!("{}: panicked with {:?} ({}), expected the destructor's own panic", what, k, m)))
+                } else {
+                    None
+                }
+            }
             (Outcome::Panic(k, m), Ok(w)) => Some(("unexpected_panic".into(), format!("{}: panicked ({:?}: {}), the reference map says {}", what, k, m, w))),
             (Outcome::Ok(g), Err(w)) => {
                 let kind = if w == PanicKind::WrongTypeId { "mismatched_type_accepted" } else { "missing_panic" };
